@@ -55,5 +55,6 @@ let dispatch (t : Stdlib.String.t array) : Stdlib.String.t =
           | Panic s -> "panic " ^ string_of_n s)
       | Err -> "err parse"
       | Panic s -> "panic " ^ string_of_n s)
+  | "seq" -> Seqops.seq !profile_ref t
   | _ -> failwith ("unknown op " ^ t.(0))
 
